@@ -39,9 +39,21 @@ func entryOf(e Ent) *kv.Entry {
 // isMemHit is the predicate lsm.Get applies to what memTable.Get builds from Search.
 func isMemHit(vs kv.ValueStruct) bool { return vs.Value != nil || vs.Meta != 0 || vs.ExpiresAt != 0 }
 
+func valueEquals(val []byte, e Ent) bool {
+	if len(val) != e.VLen {
+		return false
+	}
+	for i, b := range val {
+		if b != e.Tag+byte(i*7)+byte(i>>8) {
+			return false
+		}
+	}
+	return true
+}
+
 func valueMatches(meta byte, exp uint64, val []byte, s stored) bool {
 	for _, e := range s.vals {
-		if meta == e.Meta && exp == e.Exp && bytes.Equal(val, value(e)) {
+		if meta == e.Meta && exp == e.Exp && valueEquals(val, e) {
 			return true
 		}
 	}
@@ -77,9 +89,8 @@ func allZero(s stored) bool {
 }
 
 // checkSearch compares Search of every engine with the reference for target t.
-func checkSearch(engs []engine, ref refMap, t Tgt, r *pbt.Rec) error {
+func checkSearch(engs []engine, ref refMap, t Tgt, key []byte, r *pbt.Rec) error {
 	want, hit := ref.search(t)
-	key := ikey(t)
 	var hits []bool
 	for _, en := range engs {
 		vs := en.idx.Search(key)
@@ -147,7 +158,7 @@ func descGot(e *kv.Entry, ok bool) string {
 		return "<invalid>"
 	}
 	cf, uk, ts := kv.SplitInternalKey(e.Key)
-	return fmt.Sprintf("(cf=%d key=%x ver=%d)=%s", cf, uk, ts, descVal(e.Meta, e.ExpiresAt, e.Value))
+	return fmt.Sprintf("(cf=%d key=%s ver=%d)=%s", cf, keyStr(uk), ts, descVal(e.Meta, e.ExpiresAt, e.Value))
 }
 
 // expectAt checks that the iterator is positioned on ref[i] (or invalid if i is out of range).
@@ -162,7 +173,7 @@ func expectAt(it utils.Iterator, ref refMap, i int) (string, bool) {
 	if !ok {
 		return fmt.Sprintf("want %s, got %s", descPos(ref, i), descGot(e, ok)), false
 	}
-	if !bytes.Equal(e.Key, ikey(ref[i].Tgt)) || !valueMatches(e.Meta, e.ExpiresAt, e.Value, ref[i]) {
+	if !bytes.Equal(e.Key, ref[i].key) || !valueMatches(e.Meta, e.ExpiresAt, e.Value, ref[i]) {
 		return fmt.Sprintf("want %s, got %s", descPos(ref, i), descGot(e, ok)), false
 	}
 	return "", true
@@ -195,21 +206,21 @@ const seekFollow = 2
 
 // checkSeeks: Seek(t) lands on the first element >= t (asc) / the last element <= t (desc),
 // and the following Next calls continue from there in order.
-func checkSeeks(en engine, ref refMap, tgts []Tgt, asc bool, r *pbt.Rec) error {
+func checkSeeks(en engine, ref refMap, tgts []Tgt, keys [][]byte, asc bool, r *pbt.Rec) error {
 	dir, step := "fwd", 1
 	if !asc {
 		dir, step = "rev", -1
 	}
 	it := en.idx.NewIterator(&utils.Options{IsAsc: asc})
 	defer it.Close()
-	for _, t := range tgts {
+	for ti, t := range tgts {
 		var i int
 		if asc {
 			i = ref.lowerBound(t)
 		} else {
 			i = ref.lastLE(t)
 		}
-		it.Seek(ikey(t))
+		it.Seek(keys[ti])
 		if msg, ok := expectAt(it, ref, i); !ok {
 			return pbt.Failf("seek-"+dir+":"+en.name, "%s %s Seek%v: %s", en.name, dir, t, msg)
 		}
@@ -236,8 +247,12 @@ func checkSeeks(en engine, ref refMap, tgts []Tgt, asc bool, r *pbt.Rec) error {
 
 // checkAll runs the three oracles of the property on every engine.
 func checkAll(engs []engine, ref refMap, tgts []Tgt, r *pbt.Rec) error {
-	for _, t := range tgts {
-		if err := checkSearch(engs, ref, t, r); err != nil {
+	keys := make([][]byte, len(tgts))
+	for i, t := range tgts {
+		keys[i] = ikey(t)
+	}
+	for i, t := range tgts {
+		if err := checkSearch(engs, ref, t, keys[i], r); err != nil {
 			return err
 		}
 	}
@@ -250,7 +265,7 @@ func checkAll(engs []engine, ref refMap, tgts []Tgt, r *pbt.Rec) error {
 	}
 	for _, en := range engs {
 		for _, asc := range []bool{true, false} {
-			if err := checkSeeks(en, ref, tgts, asc, r); err != nil {
+			if err := checkSeeks(en, ref, tgts, keys, asc, r); err != nil {
 				return err
 			}
 		}
